@@ -7,6 +7,7 @@
 -/
 import MW.Lemmas.PersistFault
 import MW.Lemmas.PersistCrash
+import MW.Lemmas.LedgerConnect
 namespace MW.Props.C18
 open MW MW.Model.Ledger MW.Model.Persist MW.Spec.Persist MW.Lemmas.PersistOp MW.Lemmas.PersistFault MW.Lemmas.PersistCrash
 
@@ -168,6 +169,31 @@ theorem retry_equiv_follower_partial (env : Env) (n : Nat) (b b2 xb : Block) (P 
     (opBlock env n b2).run none P V =
       (opBlock env n b2).run none ((opBlock env n b).run none P V).P ((opBlock env n b).run none P V).V :=
   follower_retry env n b b2 xb P V hb hx hp hne hh2 hh1 hhx hready hok hok2
+
+/-- retry_equiv for the follower's own retry WITHOUT the `hready` hypothesis, for a store that holds the
+    books of the chain below `b` (C01's `Inv`, every address owner ready): the status frame
+    `s'.status = s.status` of `connect_sound` (MW.Lemmas.Ledger) discharges it. -/
+theorem retry_equiv_follower (env : Env) (n : Nat) (b b2 xb : Block) (P : PStore) (V : PVol)
+    (chain rest : List Block)
+    (hI : Lemmas.Ledger.Inv (ctxOf env V) P.led chain) (hnode : env.node.chain = chain ++ b :: rest)
+    (hvalid : Lemmas.Ledger.ChainValid (ctxOf env V).own env.node.chain) (hheight : b.height = chain.length)
+    (hAR : Lemmas.Ledger.AllReady (ctxOf env V).own (readyWallets P.led (ctxOf env V).wallets))
+    (hne : (readyWallets P.led (ctxOf env V).wallets).isEmpty = false)
+    (hb : env.node.fetchBlock b2.prev = some b) (hx : env.node.fetchBlock b.prev = some xb)
+    (hp : b.prev = V.led.best.hash) (hneq : b.id ≠ V.led.best.hash)
+    (hh2 : b2.height = V.led.best.height + 2) (hh1 : b.height = V.led.best.height + 1)
+    (hhx : xb.height = V.led.best.height)
+    (hok : ((opBlock env n b).run none P V).ok = true)
+    (hok2 : ((opBlock env n b2).run none ((opBlock env n b).run none P V).P ((opBlock env n b).run none P V).V).ok = true) :
+    (opBlock env n b2).run none P V =
+      (opBlock env n b2).run none ((opBlock env n b).run none P V).P ((opBlock env n b).run none P V).V := by
+  refine follower_retry env n b b2 xb P V hb hx hp hneq hh2 hh1 hhx ?_ hok hok2
+  intro s1 c1 hf
+  obtain ⟨s', conf, h1, _, hst⟩ :=
+    Lemmas.Ledger.connect_sound (c := ctxOf env V) hI hnode hvalid hheight hAR hne
+  rw [hf] at h1
+  cases h1
+  exact Lemmas.Ledger.readyWallets_congr hst _
 
 /-- no skipped or duplicated address index: NewAddress keeps every wallet's indexes 0 … next−1 -/
 theorem newAddr_no_skipped_or_duplicated_index (env : Env) (nA nB nC : Nat) (stk : Bool) (P : PStore) (V : PVol)
